@@ -5,7 +5,9 @@ set -e
 cd /verif
 export PYTHONHASHSEED=0 PYTHONDONTWRITEBYTECODE=1
 mkdir -p bin coq/gen work
-/venv/bin/python harness/gen_tables.py >/dev/null
+# VERIF_KEEP_GEN=1: keep coq/gen as it is (used by the check when the translator refused the current source, so that the
+# search for a failing input can still run against the model of the last source the translator accepted)
+[ -n "$VERIF_KEEP_GEN" ] || /venv/bin/python harness/gen_tables.py >/dev/null
 cd coq
 ( cat _CoqProject.in; find theories gen properties extract -name '*.v' | sort ) > _CoqProject.new
 if ! cmp -s _CoqProject.new _CoqProject 2>/dev/null; then
